@@ -653,6 +653,34 @@ fn run_op_inner(st: &mut State, op: &Op) -> Obs {
             if fd < 0 { return Obs { ok: false, errno: Some(std::io::Error::last_os_error().raw_os_error().unwrap_or(0)), kind: Some("raw".into()), ..Default::default() }; }
             ok_fd(st, op, unsafe { OwnedFd::from_raw_fd(fd) })
         }
+        (_, "raw_openat2") => {
+            // the kernel's own in-root resolution as seen by THIS process (same uid, same capabilities): one raw openat2 system
+            // call, no library code involved (oracle for callers other than root). itype "readlink": read the link it returns.
+            #[repr(C)] struct How { flags: u64, mode: u64, resolve: u64 }
+            let rc = cstr(op.root.as_deref().unwrap_or("/"));
+            let rfd = unsafe { libc::open(rc.as_ptr(), libc::O_PATH | libc::O_DIRECTORY | libc::O_CLOEXEC) };
+            if rfd < 0 { return harness_err(format!("raw_openat2: cannot open root: {}", std::io::Error::last_os_error())); }
+            let rfd = unsafe { OwnedFd::from_raw_fd(rfd) };
+            let c = cstr(&path_s);
+            let how = How { flags: op.flags.unwrap_or(0) as u64 | libc::O_CLOEXEC as u64, mode: 0, resolve: op.rflags.unwrap_or(0) };
+            let mut r: i64 = -1; let mut e = 0;
+            for i in 0..5000 {
+                r = unsafe { libc::syscall(libc::SYS_openat2, rfd.as_raw_fd(), c.as_ptr(), &how as *const How, std::mem::size_of::<How>()) } as i64;
+                if r >= 0 { break; }
+                e = std::io::Error::last_os_error().raw_os_error().unwrap_or(0);
+                if e != libc::EAGAIN { break; }
+                if i > 50 { unsafe { libc::usleep(200) }; }
+            }
+            if r < 0 { return Obs { ok: false, errno: Some(e), kind: Some("raw".into()), ..Default::default() }; }
+            let fd = unsafe { OwnedFd::from_raw_fd(r as RawFd) };
+            if op.itype.as_deref() == Some("readlink") {
+                let mut buf = vec![0u8; 8192];
+                let n = unsafe { libc::readlinkat(fd.as_raw_fd(), b"\0".as_ptr() as *const c_char, buf.as_mut_ptr() as *mut c_char, buf.len()) };
+                if n < 0 { return Obs { ok: false, errno: Some(std::io::Error::last_os_error().raw_os_error().unwrap_or(0)), kind: Some("raw".into()), ..Default::default() }; }
+                return Obs { ok: true, text: Some(proto::enc_bytes(&buf[..n as usize])), ..Default::default() };
+            }
+            ok_fd(st, op, fd)
+        }
         (_, "occupy_low") => {
             // make sure descriptors 0,1,2 are occupied so that the library's own opens never land on them by accident
             for fd in 0..3 {
